@@ -898,6 +898,24 @@ package mast
 //@ requires nn (> dc 0)
 //@ ensures reset [C06 C07] (and (isNil (diffState.addedLink H dc)) (isNil (diffState.removedLink H dc)) (isNil (diffState.curKey H dc)) (isNil (diffState.addedValue H dc)) (isNil (diffState.removedValue H dc)) (not (diffState.hasAdd H dc)) (not (diffState.hasRemove H dc)))
 
+// the in-memory backend (C18): a map from names to byte strings behind a mutex
+//@ smt (define-fun memHas ((h Heap) (s Int) (k Bytes)) Bool (and (not (= (inMemoryStore.entries h s) 0)) (select (select (Map.Bytes.BS.has h) (inMemoryStore.entries h s)) k)))
+//@ smt (define-fun memVal ((h Heap) (s Int) (k Bytes)) BS (select (select (Map.Bytes.BS h) (inMemoryStore.entries h s)) k))
+//@ func (*inMemoryStore).Store
+//@ tags C18
+//@ modifies W G.held inMemoryStore.entries Map.Bytes.BS Map.Bytes.BS.has
+//@ requires nn (> ims 0)
+//@ ensures ok [C18] (= result anil)
+//@ ensures stored [C18] (and (memHas H ims key) (= (memVal H ims key) value))
+//@ ensures others [C18] (forall ((k Bytes)) (! (=> (not (= k key)) (and (= (memHas H ims k) (memHas H0 ims k)) (=> (memHas H0 ims k) (= (memVal H ims k) (memVal H0 ims k))))) :pattern ((memHas H ims k))))
+
+//@ func (*inMemoryStore).Load
+//@ tags C18
+//@ modifies W G.held Arr.Any@fresh
+//@ requires nn (> ims 0)
+//@ ensures hit [C18] (=> (memHas H0 ims key) (and (= result1 anil) (= result0 (memVal H0 ims key))))
+//@ ensures miss [C18] (=> (not (memHas H0 ims key)) (isErr result1))
+
 // defaults of a new tree (C14): branch factor 16, the compact binary node format, empty
 //@ func NewRoot
 //@ tags C14
